@@ -245,3 +245,252 @@ Theorem C03_hist_executed_once init steps :
   Ledger.c03_hist_check (Ledger.Hist init steps) = [] -> NoDup (Ledger.executed_ids steps).
 Proof. exact (LedgerProofs.c03_hist_executed_once init steps). Qed.
 Print Assumptions C03_hist_executed_once.
+
+(* == the frame / exact-delta clauses derived from the executable models of the handlers that move coins ===========
+   (Proofs/SupplyFrameProofs.v).  Every statement is over ALL states and operations of the model, histories by
+   induction over the operation list.  What ties a model to the Go code is the correspondence check of the property
+   that owns it: Escrow C04, BridgeTokens C14, DisputeSettle C13, Slash C11. *)
+From Verif Require Base.Dec Model.Escrow Model.BridgeTokens Model.DisputeSettle Model.Slash Proofs.SupplyFrameProofs.
+
+(* -- Model/Escrow.v: tips, payouts of tips and of time based rewards, tip withdrawals, the block provision ------- *)
+(* an accepted tip of a burns floor(2a/100) *)
+Theorem C03_escrow_tip_exact s q a s' :
+  Escrow.estep s (Escrow.ETip q a) = Some s' ->
+  0 < a <= Escrow.e_users s /\ Escrow.supply_delta s (Escrow.ETip q a) = - (2 * a / 100) /\
+  Escrow.e_supply s' = Escrow.e_supply s - 2 * a / 100 /\ 0 <= 2 * a / 100 <= a /\
+  Escrow.e_users s' = Escrow.e_users s - a /\ Escrow.e_oracle s' = Escrow.e_oracle s + (a - 2 * a / 100).
+Proof. exact (SupplyFrameProofs.EscrowFrame.tip_exact s q a s'). Qed.
+Print Assumptions C03_escrow_tip_exact.
+
+(* an accepted block provision p adds p: three quarters to the reward pool, one quarter to the fee collector *)
+Theorem C03_escrow_mint_exact s p s' :
+  Escrow.estep s (Escrow.EMint p) = Some s' ->
+  0 <= p /\ Escrow.supply_delta s (Escrow.EMint p) = p /\ Escrow.e_supply s' = Escrow.e_supply s + p /\
+  Escrow.e_tbr s' = Escrow.e_tbr s + (p - p / 4) /\ Escrow.e_feecoll s' = Escrow.e_feecoll s + p / 4.
+Proof. exact (SupplyFrameProofs.EscrowFrame.mint_exact s p s'). Qed.
+Print Assumptions C03_escrow_mint_exact.
+
+(* every operation: the supply changes by exactly the model's delta ... *)
+Theorem C03_escrow_frame s o :
+  Escrow.e_supply (Escrow.estep_total s o) = Escrow.e_supply s + Escrow.supply_delta s o.
+Proof. exact (EscrowProofs.supply_frame s o). Qed.
+Print Assumptions C03_escrow_frame.
+
+(* ... which is non-zero only at an accepted tip or provision *)
+Theorem C03_escrow_only_documented s o :
+  Escrow.supply_delta s o <> 0 ->
+  match o with
+  | Escrow.ETip _ a => Escrow.estep s o <> None /\ 0 < a /\ Escrow.supply_delta s o = - (2 * a / 100)
+  | Escrow.EMint p => Escrow.estep s o <> None /\ 0 < p /\ Escrow.supply_delta s o = p
+  | Escrow.EPayTip _ _ | Escrow.EPayTbr _ | Escrow.EWithdrawTip _ => False
+  end.
+Proof. exact (SupplyFrameProofs.EscrowFrame.delta_only_documented s o). Qed.
+Print Assumptions C03_escrow_only_documented.
+
+Theorem C03_escrow_other_ops_unchanged s o :
+  match o with Escrow.ETip _ _ | Escrow.EMint _ => False | _ => True end ->
+  Escrow.supply_delta s o = 0 /\ Escrow.e_supply (Escrow.estep_total s o) = Escrow.e_supply s.
+Proof. exact (SupplyFrameProofs.EscrowFrame.other_ops_unchanged s o). Qed.
+Print Assumptions C03_escrow_other_ops_unchanged.
+
+Theorem C03_escrow_rejected_unchanged s o :
+  Escrow.estep s o = None -> Escrow.estep_total s o = s /\ Escrow.supply_delta s o = 0.
+Proof. exact (SupplyFrameProofs.EscrowFrame.rejected_unchanged s o). Qed.
+Print Assumptions C03_escrow_rejected_unchanged.
+
+(* over any history: final supply = initial supply + sum of the per-operation deltas; and it stays the sum of the
+   balances the model tracks *)
+Theorem C03_escrow_history ops s :
+  Escrow.e_supply (fold_left Escrow.estep_total ops s)
+  = Escrow.e_supply s + SupplyFrameProofs.zsum (SupplyFrameProofs.EscrowFrame.deltas s ops).
+Proof. exact (SupplyFrameProofs.EscrowFrame.supply_history ops s). Qed.
+Print Assumptions C03_escrow_history.
+
+Theorem C03_escrow_supply_is_balance_sum ops s :
+  EscrowProofs.einv s ->
+  let s' := fold_left Escrow.estep_total ops s in
+  Escrow.e_supply s' = Escrow.e_users s' + Escrow.e_oracle s' + Escrow.e_tips s' + Escrow.e_tbr s'
+                       + Escrow.e_feecoll s' + Escrow.e_bonded s'.
+Proof. exact (SupplyFrameProofs.EscrowFrame.supply_is_balance_sum ops s). Qed.
+Print Assumptions C03_escrow_supply_is_balance_sum.
+
+(* -- Model/BridgeTokens.v: claims of deposits, withdrawals -------------------------------------------------------- *)
+(* one claimed deposit mints the reported amount / 10^12 *)
+Theorem C03_bridge_claim_one_exact v cf s claimer dep idx s' :
+  BridgeTokens.v_wide v = true -> BridgeTokens.claim_deposit v cf s claimer dep idx = Some s' ->
+  BridgeTokens.s_supply s' = BridgeTokens.s_supply s + SupplyFrameProofs.BridgeFrame.reported_wei s dep idx / BridgeTokens.E12 /\
+  0 <= SupplyFrameProofs.BridgeFrame.reported_wei s dep idx / BridgeTokens.E12 /\
+  BridgeTokens.s_aggs s' = BridgeTokens.s_aggs s.
+Proof. exact (SupplyFrameProofs.BridgeFrame.claim_one_exact v cf s claimer dep idx s'). Qed.
+Print Assumptions C03_bridge_claim_one_exact.
+
+(* an accepted batch mints the sum over the batch *)
+Theorem C03_bridge_claim_batch_exact v cf s claimer ds is_ s' :
+  BridgeTokens.v_wide v = true -> BridgeTokens.claim_deposits v cf s claimer ds is_ = Some s' ->
+  BridgeTokens.s_supply s' = BridgeTokens.s_supply s + SupplyFrameProofs.BridgeFrame.batch_loya s ds is_ /\
+  0 <= SupplyFrameProofs.BridgeFrame.batch_loya s ds is_ /\
+  SupplyFrameProofs.BridgeFrame.supply_delta v cf s (BridgeTokens.OClaim claimer ds is_)
+  = SupplyFrameProofs.BridgeFrame.batch_loya s ds is_.
+Proof. exact (SupplyFrameProofs.BridgeFrame.claim_batch_exact v cf s claimer ds is_ s'). Qed.
+Print Assumptions C03_bridge_claim_batch_exact.
+
+(* an accepted withdrawal burns the withdrawn amount (either variant) *)
+Theorem C03_bridge_withdraw_exact v cf s sender dn amount rcpt s' :
+  BridgeTokens.withdraw v cf s sender dn amount rcpt = Some s' ->
+  BridgeTokens.s_supply s' = BridgeTokens.s_supply s - amount /\
+  0 < amount <= BridgeTokens.bal_get (BridgeTokens.s_bal s) sender /\
+  SupplyFrameProofs.BridgeFrame.supply_delta v cf s (BridgeTokens.OWithdraw sender dn amount rcpt) = - amount.
+Proof. exact (SupplyFrameProofs.BridgeFrame.withdraw_exact v cf s sender dn amount rcpt s'). Qed.
+Print Assumptions C03_bridge_withdraw_exact.
+
+(* every operation of the model (block time, stored aggregates, flags, checkpoints, oracle submissions, rejected
+   messages included): the supply changes by exactly the delta *)
+Theorem C03_bridge_frame v cf s o :
+  BridgeTokens.v_wide v = true ->
+  BridgeTokens.s_supply (BridgeTokens.hstep v cf s o)
+  = BridgeTokens.s_supply s + SupplyFrameProofs.BridgeFrame.supply_delta v cf s o.
+Proof. exact (SupplyFrameProofs.BridgeFrame.supply_frame v cf s o). Qed.
+Print Assumptions C03_bridge_frame.
+
+Theorem C03_bridge_only_documented v cf s o :
+  SupplyFrameProofs.BridgeFrame.supply_delta v cf s o <> 0 ->
+  match o with
+  | BridgeTokens.OClaim c ds is_ =>
+      BridgeTokens.claim_deposits v cf s c ds is_ <> None /\
+      SupplyFrameProofs.BridgeFrame.supply_delta v cf s o = SupplyFrameProofs.BridgeFrame.batch_loya s ds is_
+  | BridgeTokens.OWithdraw a dn amt r =>
+      BridgeTokens.withdraw v cf s a dn amt r <> None /\ 0 < amt /\
+      SupplyFrameProofs.BridgeFrame.supply_delta v cf s o = - amt
+  | _ => False
+  end.
+Proof. exact (SupplyFrameProofs.BridgeFrame.delta_only_documented v cf s o). Qed.
+Print Assumptions C03_bridge_only_documented.
+
+Theorem C03_bridge_rejected_unchanged v cf s o :
+  match o with
+  | BridgeTokens.OClaim c ds is_ => BridgeTokens.claim_deposits v cf s c ds is_ = None
+  | BridgeTokens.OWithdraw a dn amt r => BridgeTokens.withdraw v cf s a dn amt r = None
+  | _ => False
+  end -> BridgeTokens.hstep v cf s o = s /\ SupplyFrameProofs.BridgeFrame.supply_delta v cf s o = 0.
+Proof. exact (SupplyFrameProofs.BridgeFrame.rejected_unchanged v cf s o). Qed.
+Print Assumptions C03_bridge_rejected_unchanged.
+
+Theorem C03_bridge_history v cf ops :
+  BridgeTokens.v_wide v = true -> forall s,
+  BridgeTokens.s_supply (fold_left (BridgeTokens.hstep v cf) ops s)
+  = BridgeTokens.s_supply s + SupplyFrameProofs.zsum (SupplyFrameProofs.BridgeFrame.deltas v cf s ops).
+Proof. exact (SupplyFrameProofs.BridgeFrame.supply_history v cf ops). Qed.
+Print Assumptions C03_bridge_history.
+
+(* the code as found (finding F26 of C14: amount / 10^12 passes through Int64()): the frame is false *)
+Theorem C03_bridge_frame_as_found_refuted :
+  exists cf s o,
+    BridgeTokens.s_supply (BridgeTokens.hstep BridgeTokens.as_found cf s o)
+    <> BridgeTokens.s_supply s + SupplyFrameProofs.BridgeFrame.supply_delta BridgeTokens.as_found cf s o.
+Proof. exact SupplyFrameProofs.BridgeFrame.supply_frame_as_found_refuted. Qed.
+Print Assumptions C03_bridge_frame_as_found_refuted.
+
+(* -- Model/DisputeSettle.v: fee payments, execution, refunds, rewards (s_burned = supply burnt so far) ----------- *)
+(* every operation of the model, every variant: the burnt total grows by exactly the delta ... *)
+Theorem C03_dispute_frame v c s o :
+  DisputeSettle.s_burned (fst (DisputeSettle.step v c s o))
+  = DisputeSettle.s_burned s + SupplyFrameProofs.DisputeFrame.burn_delta v c s o.
+Proof. exact (SupplyFrameProofs.DisputeFrame.burn_frame v c s o). Qed.
+Print Assumptions C03_dispute_frame.
+
+(* ... which is non-zero only at the step that executes the dispute and at an accepted fee refund; proposals, fee
+   payments (from the account or from stake), time, tally, votes, reward claims: nothing *)
+Theorem C03_dispute_only_documented v c s o :
+  SupplyFrameProofs.DisputeFrame.burn_delta v c s o <> 0 ->
+  match o with
+  | DisputeSettle.OExecBlock | DisputeSettle.OExecute _ =>
+      snd (DisputeSettle.step v c s o) = DisputeSettle.OK /\ DisputeSettle.s_executed s = false /\
+      DisputeSettle.s_executed (fst (DisputeSettle.step v c s o)) = true /\
+      SupplyFrameProofs.DisputeFrame.burn_delta v c s o = SupplyFrameProofs.DisputeFrame.exec_burn s
+  | DisputeSettle.OWithdraw who id =>
+      snd (DisputeSettle.step v c s o) = DisputeSettle.OK /\
+      SupplyFrameProofs.DisputeFrame.burn_delta v c s o
+      = SupplyFrameProofs.DisputeFrame.dust_units (DisputeSettle.s_dust s + SupplyFrameProofs.DisputeFrame.withdraw_fraction s who id)
+  | _ => False
+  end.
+Proof. exact (SupplyFrameProofs.DisputeFrame.delta_only_documented v c s o). Qed.
+Print Assumptions C03_dispute_only_documented.
+
+Theorem C03_dispute_rejected_unchanged v c s o :
+  snd (DisputeSettle.step v c s o) <> DisputeSettle.OK -> SupplyFrameProofs.DisputeFrame.burn_delta v c s o = 0.
+Proof. exact (SupplyFrameProofs.DisputeFrame.rejected_unchanged v c s o). Qed.
+Print Assumptions C03_dispute_rejected_unchanged.
+
+(* the execution burns half the burn amount, all of it when no voting power was recorded *)
+Theorem C03_dispute_execution_burn_exact v c s o :
+  match o with DisputeSettle.OExecBlock | DisputeSettle.OExecute _ => True | _ => False end ->
+  0 <= DisputeSettle.s_burn s -> SupplyFrameProofs.DisputeFrame.executes v c s o = true ->
+  DisputeSettle.s_burned (fst (DisputeSettle.step v c s o)) - DisputeSettle.s_burned s
+    = (if DisputeSettle.total_voter_power (DisputeSettle.s_rounds s) (DisputeSettle.s_id s) (DisputeSettle.s_prev s) =? 0
+       then DisputeSettle.s_burn s else DisputeSettle.s_burn s / 2) /\
+  snd (DisputeSettle.step v c s o) = DisputeSettle.OK.
+Proof. exact (SupplyFrameProofs.DisputeFrame.execution_burn_exact v c s o). Qed.
+Print Assumptions C03_dispute_execution_burn_exact.
+
+(* an accepted fee refund burns the whole loya of the accumulated dust (10^-6 loya): at most two; no dust is lost *)
+Theorem C03_dispute_refund_burn_exact v c s who id :
+  SupplyFrameProofs.DisputeFrame.dust_ok s ->
+  snd (DisputeSettle.step v c s (DisputeSettle.OWithdraw who id)) = DisputeSettle.OK ->
+  let s' := fst (DisputeSettle.step v c s (DisputeSettle.OWithdraw who id)) in
+  let D := DisputeSettle.s_dust s + SupplyFrameProofs.DisputeFrame.withdraw_fraction s who id in
+  DisputeSettle.s_burned s' - DisputeSettle.s_burned s = D / DisputeSettle.PR6 /\ 0 <= D / DisputeSettle.PR6 <= 2 /\
+  DisputeSettle.s_dust s' = D mod DisputeSettle.PR6 /\
+  DisputeSettle.s_burned s' * DisputeSettle.PR6 + DisputeSettle.s_dust s'
+  = DisputeSettle.s_burned s * DisputeSettle.PR6 + DisputeSettle.s_dust s + SupplyFrameProofs.DisputeFrame.withdraw_fraction s who id.
+Proof. exact (SupplyFrameProofs.DisputeFrame.refund_burn_exact v c s who id). Qed.
+Print Assumptions C03_dispute_refund_burn_exact.
+
+Theorem C03_dispute_refund_fraction_range s who id :
+  0 <= SupplyFrameProofs.DisputeFrame.withdraw_fraction s who id < 2 * DisputeSettle.PR6.
+Proof. exact (SupplyFrameProofs.DisputeFrame.withdraw_fraction_range s who id). Qed.
+Print Assumptions C03_dispute_refund_fraction_range.
+
+(* the dust store stays in [0, 1 loya) over every history, so the bound of two holds at every refund *)
+Theorem C03_dispute_dust_invariant v c ops s :
+  SupplyFrameProofs.DisputeFrame.dust_ok s -> SupplyFrameProofs.DisputeFrame.dust_ok (DisputeSettle.run v c s ops).
+Proof. exact (SupplyFrameProofs.DisputeFrame.dust_history v c ops s). Qed.
+Print Assumptions C03_dispute_dust_invariant.
+
+Theorem C03_dispute_burn_bounds v c s o :
+  SupplyFrameProofs.DisputeFrame.dust_ok s -> 0 <= DisputeSettle.s_burn s ->
+  0 <= SupplyFrameProofs.DisputeFrame.burn_delta v c s o <= Z.max (DisputeSettle.s_burn s) 2.
+Proof. exact (SupplyFrameProofs.DisputeFrame.burn_delta_bounds v c s o). Qed.
+Print Assumptions C03_dispute_burn_bounds.
+
+Theorem C03_dispute_history v c ops s :
+  DisputeSettle.s_burned (DisputeSettle.run v c s ops)
+  = DisputeSettle.s_burned s + SupplyFrameProofs.zsum (SupplyFrameProofs.DisputeFrame.deltas v c s ops).
+Proof. exact (SupplyFrameProofs.DisputeFrame.burn_history v c ops s). Qed.
+Print Assumptions C03_dispute_history.
+
+(* -- Model/Slash.v: escrowing stake moves coins from the two pools into the dispute escrow; no supply change ----- *)
+Theorem C03_slash_escrow_no_supply_change vr reds st origins power amt st' rec :
+  Slash.escrow vr reds st origins power amt = Some (st', rec) ->
+  Slash.s_bonded st' + Slash.s_notbonded st' + Slash.s_escrow st'
+  = Slash.s_bonded st + Slash.s_notbonded st + Slash.s_escrow st /\
+  Slash.s_escrow st <= Slash.s_escrow st'.
+Proof. exact (SupplyFrameProofs.SlashFrame.escrow_no_supply_change vr reds st origins power amt st' rec). Qed.
+Print Assumptions C03_slash_escrow_no_supply_change.
+
+(* -- the models' deltas are the documented events of the ledger above (nominal_delta) ---------------------------- *)
+Theorem C03_escrow_tip_is_ledger_event fx l t s q a s' :
+  Escrow.estep s (Escrow.ETip q a) = Some s' ->
+  Escrow.supply_delta s (Escrow.ETip q a) = nominal_delta fx l (LTip t a).
+Proof. exact (SupplyFrameProofs.EscrowFrame.tip_is_ledger_event fx l t s q a s'). Qed.
+Print Assumptions C03_escrow_tip_is_ledger_event.
+
+Theorem C03_bridge_claim_is_ledger_event fx l fresh c r tipw s dep idx :
+  SupplyFrameProofs.BridgeFrame.reported_wei s dep idx / BridgeTokens.E12
+  = nominal_delta fx l (LClaim fresh c r (SupplyFrameProofs.BridgeFrame.reported_wei s dep idx) tipw).
+Proof. exact (SupplyFrameProofs.BridgeFrame.claim_is_ledger_event fx l fresh c r tipw s dep idx). Qed.
+Print Assumptions C03_bridge_claim_is_ledger_event.
+
+Theorem C03_dispute_burns_are_ledger_events fx l b :
+  - b = nominal_delta fx l (LDisputeBurn b) /\ - b = nominal_delta fx l (LDustBurn b).
+Proof. exact (SupplyFrameProofs.DisputeFrame.burns_are_ledger_events fx l b). Qed.
+Print Assumptions C03_dispute_burns_are_ledger_events.
